@@ -13,10 +13,17 @@ Section StmtInd.
   Hypothesis Hshow : forall d x, P (SShow d x).
   Hypothesis Hanim : forall l, P (SAnim l).
   Hypothesis Hbreak : P SBreak.
-  Hypothesis Hif : forall x b, Forall P b -> P (SIf x b).
+  Hypothesis Hif : forall x b e, Forall P b -> Forall P e -> P (SIf x b e).
   Hypothesis Hfor : forall c b, Forall P b -> P (SFor c b).
+  Hypothesis Hwhile : forall x b, Forall P b -> P (SWhile x b).
+  Hypothesis Htry : forall b h, Forall P b -> Forall P h -> P (STry b h).
 
   Fixpoint stmt_ind' (s : stmt) : P s :=
+    let all := fix go (l : list stmt) : Forall P l :=
+                 match l with
+                 | [] => Forall_nil P
+                 | a :: r => Forall_cons a (stmt_ind' a) (go r)
+                 end in
     match s with
     | SMark id dev => Hmark id dev
     | SDecl d => Hdecl d
@@ -24,16 +31,10 @@ Section StmtInd.
     | SShow d x => Hshow d x
     | SAnim l => Hanim l
     | SBreak => Hbreak
-    | SIf x b => Hif x b ((fix go (l : list stmt) : Forall P l :=
-                             match l with
-                             | [] => Forall_nil P
-                             | a :: r => Forall_cons a (stmt_ind' a) (go r)
-                             end) b)
-    | SFor c b => Hfor c b ((fix go (l : list stmt) : Forall P l :=
-                               match l with
-                               | [] => Forall_nil P
-                               | a :: r => Forall_cons a (stmt_ind' a) (go r)
-                               end) b)
+    | SIf x b e => Hif x b e (all b) (all e)
+    | SFor c b => Hfor c b (all b)
+    | SWhile x b => Hwhile x b (all b)
+    | STry b h => Htry b h (all b) (all h)
     end.
 End StmtInd.
 
@@ -69,29 +70,57 @@ Fixpoint for_iter (m : mode) (tab : list decl) (ins : bool) (d : list name) (bod
       end
   end.
 
-Definition pre_reset (m : mode) (top ins : bool) (d : list name) (body : list stmt) (vs : vstate) : vstate :=
-  if resets_here m top ins then reset (fresh d (flat_map assigned_stmt body)) vs else vs.
+Fixpoint while_iter (m : mode) (tab : list decl) (ins : bool) (d : list name) (x : name) (body : list stmt)
+         (k : nat) (v : vstate) : res3 :=
+  match k with
+  | O => (out_of_fuel v, [], false)
+  | S k' =>
+      let (c, v0) := vread x v in
+      if c =? 0 then (v0, [], false)
+      else match run_list m tab false ins d body v0 with
+           | (v1, t1, true) => (v1, t1, false)
+           | (v1, t1, false) => match while_iter m tab ins d x body k' v1 with (v2, t2, b2) => (v2, t1 ++ t2, b2) end
+           end
+  end.
 
-Lemma run_if : forall m tab top ins d x body vs,
-  run_stmt m tab top ins d (SIf x body) vs =
-  (let (c, vs1) := vread x (pre_reset m top ins d body vs) in
-   if c =? 0 then (vs1, [], false) else run_list m tab false ins d body vs1).
+Lemma run_if : forall m tab top ins d x body els vs,
+  run_stmt m tab top ins d (SIf x body els) vs =
+  (let (c, vs1) := vread x (pre_reset m top ins d (assigned_stmt (SIf x body els)) vs) in
+   if c =? 0 then run_list m tab false ins d els vs1 else run_list m tab false ins d body vs1).
 Proof.
-  intros. cbn [run_stmt]. unfold pre_reset.
-  destruct (vread x _) as [c vs1]. destruct (c =? 0); [reflexivity|]. apply blk_eq.
+  intros. cbn [run_stmt].
+  destruct (vread x _) as [c vs1]. destruct (c =? 0); apply blk_eq.
 Qed.
 
 Lemma run_for : forall m tab top ins d cnt body vs,
   run_stmt m tab top ins d (SFor cnt body) vs =
-  for_iter m tab ins d body cnt (pre_reset m top ins d body vs).
+  for_iter m tab ins d body cnt (pre_reset m top ins d (assigned_stmt (SFor cnt body)) vs).
 Proof.
-  intros. cbn [run_stmt]. unfold pre_reset.
-  generalize (if resets_here m top ins then reset (fresh d (flat_map assigned_stmt body)) vs else vs).
+  intros. cbn [run_stmt].
+  generalize (pre_reset m top ins d (assigned_stmt (SFor cnt body)) vs).
   induction cnt as [|k IH]; intro v; [reflexivity|].
   cbn [for_iter]. rewrite blk_eq.
   destruct (run_list m tab false ins d body v) as [[v1 t1] [|]]; [reflexivity|].
   rewrite IH. reflexivity.
 Qed.
+
+Lemma run_while : forall m tab top ins d x body vs,
+  run_stmt m tab top ins d (SWhile x body) vs =
+  while_iter m tab ins d x body while_fuel (pre_reset m top ins d (assigned_stmt (SWhile x body)) vs).
+Proof.
+  intros. cbn [run_stmt].
+  generalize (pre_reset m top ins d (assigned_stmt (SWhile x body)) vs).
+  generalize while_fuel.
+  induction n as [|k IH]; intro v; [reflexivity|].
+  cbn [while_iter]. destruct (vread x v) as [c v0]. destruct (c =? 0); [reflexivity|]. rewrite blk_eq.
+  destruct (run_list m tab false ins d body v0) as [[v1 t1] [|]]; [reflexivity|].
+  rewrite IH. reflexivity.
+Qed.
+
+Lemma run_try : forall m tab top ins d body h vs,
+  run_stmt m tab top ins d (STry body h) vs =
+  run_list m tab false ins d body (pre_reset m top ins d (assigned_stmt (STry body h)) vs).
+Proof. intros. cbn [run_stmt]. apply blk_eq. Qed.
 
 Fixpoint no_intro_list (ins : bool) (d : list name) (l : list stmt) : bool :=
   match l with
@@ -99,22 +128,33 @@ Fixpoint no_intro_list (ins : bool) (d : list name) (l : list stmt) : bool :=
   | s1 :: r => no_intro false ins d s1 && no_intro_list ins (d ++ assigned_stmt s1) r
   end.
 
-Definition no_fresh (top ins : bool) (d : list name) (body : list stmt) : bool :=
-  (top && ins) || match fresh d (flat_map assigned_stmt body) with [] => true | _ => false end.
-
-Lemma no_intro_if : forall top ins d x body,
-  no_intro top ins d (SIf x body) = no_fresh top ins d body && no_intro_list ins d body.
+Lemma no_intro_blk : forall ins l d,
+  (fix go (d : list name) (l : list stmt) : bool :=
+     match l with
+     | [] => true
+     | s1 :: r => no_intro false ins d s1 && go (d ++ assigned_stmt s1) r
+     end) d l = no_intro_list ins d l.
 Proof.
-  intros. cbn [no_intro]. unfold no_fresh. f_equal.
-  revert d. induction body as [|s r IH]; intro d; [reflexivity|]. cbn [no_intro_list]. rewrite <- IH. reflexivity.
+  intros ins l. induction l as [|s r IH]; intro d; [reflexivity|]. cbn [no_intro_list]. rewrite <- IH. reflexivity.
 Qed.
+
+Lemma no_intro_if : forall top ins d x body els,
+  no_intro top ins d (SIf x body els) =
+  no_fresh top ins d (assigned_stmt (SIf x body els)) && no_intro_list ins d body && no_intro_list ins d els.
+Proof. intros. cbn [no_intro]. rewrite !no_intro_blk. reflexivity. Qed.
 
 Lemma no_intro_for : forall top ins d c body,
-  no_intro top ins d (SFor c body) = no_fresh top ins d body && no_intro_list ins d body.
-Proof.
-  intros. cbn [no_intro]. unfold no_fresh. f_equal.
-  revert d. induction body as [|s r IH]; intro d; [reflexivity|]. cbn [no_intro_list]. rewrite <- IH. reflexivity.
-Qed.
+  no_intro top ins d (SFor c body) = no_fresh top ins d (assigned_stmt (SFor c body)) && no_intro_list ins d body.
+Proof. intros. cbn [no_intro]. rewrite !no_intro_blk. reflexivity. Qed.
+
+Lemma no_intro_while : forall top ins d x body,
+  no_intro top ins d (SWhile x body) = no_fresh top ins d (assigned_stmt (SWhile x body)) && no_intro_list ins d body.
+Proof. intros. cbn [no_intro]. rewrite !no_intro_blk. reflexivity. Qed.
+
+Lemma no_intro_try : forall top ins d body h,
+  no_intro top ins d (STry body h) =
+  no_fresh top ins d (assigned_stmt (STry body h)) && no_intro_list ins d body && no_intro_list ins d h.
+Proof. intros. cbn [no_intro]. rewrite !no_intro_blk. reflexivity. Qed.
 
 (* ------------------------------------------------------------------ the break guard *)
 Definition base (main : bool) (ld : nat) : Prop := ld = O \/ (main = true /\ ld = 1%nat).
@@ -140,11 +180,19 @@ Proof.
   destruct (run_list m tab top ins (d ++ assigned_stmt s) r v1) as [[v2 t2] b2]. exact IH.
 Qed.
 
+Lemma while_iter_nobreak : forall m tab ins d x body k v, snd (while_iter m tab ins d x body k v) = false.
+Proof.
+  intros m tab ins d x body k; induction k as [|k IH]; intro v; [reflexivity|].
+  cbn [while_iter]. destruct (vread x v) as [c v0]. destruct (c =? 0); [reflexivity|].
+  destruct (run_list m tab false ins d body v0) as [[v1 t1] [|]]; [reflexivity|].
+  specialize (IH v1). destruct (while_iter m tab ins d x body k v1) as [[v2 t2] b2]. exact IH.
+Qed.
+
 (* a statement accepted by the guard at the base depth never lets a break escape *)
 Lemma bg_stmt_nobreak : forall s main ld m tab top ins d vs,
   bg main ld s = true -> base main ld -> snd (run_stmt m tab top ins d s vs) = false.
 Proof.
-  intro s. induction s as [id dev|dd|x e|dv x|l| |x b IHb|c b IHb] using stmt_ind';
+  intro s. induction s as [id dev|dd|x e|dv x|l| |x b el IHb IHe|c b IHb|x b IHb|b h IHb IHh] using stmt_ind';
     intros main ld m tab top ins d vs Hb Hbase.
   - reflexivity.
   - reflexivity.
@@ -152,10 +200,18 @@ Proof.
   - cbn [run_stmt]. destruct (vread x vs). reflexivity.
   - reflexivity.
   - exfalso. cbn [bg] in Hb. destruct Hbase as [H0|[Hm H1]]; subst; cbn in Hb; discriminate.
-  - rewrite run_if. destruct (vread x _) as [c vs1]. destruct (c =? 0); [reflexivity|].
-    cbn [bg] in Hb. apply (bg_list_nobreak main ld b); auto.
-    eapply Forall_impl; [|exact IHb]. intros a Ha m0 tab0 top0 ins0 d0 vs0 H1 H2. eapply Ha; eauto.
+  - rewrite run_if. destruct (vread x _) as [c vs1].
+    cbn [bg] in Hb. apply andb_true_iff in Hb as [Hb1 Hb2].
+    destruct (c =? 0).
+    + apply (bg_list_nobreak main ld el); auto.
+      eapply Forall_impl; [|exact IHe]. intros a Ha m0 tab0 top0 ins0 d0 vs0 H1 H2. eapply Ha; eauto.
+    + apply (bg_list_nobreak main ld b); auto.
+      eapply Forall_impl; [|exact IHb]. intros a Ha m0 tab0 top0 ins0 d0 vs0 H1 H2. eapply Ha; eauto.
   - rewrite run_for. apply for_iter_nobreak.
+  - rewrite run_while. apply while_iter_nobreak.
+  - rewrite run_try. cbn [bg] in Hb. apply andb_true_iff in Hb as [Hb1 Hb2].
+    apply (bg_list_nobreak main ld b); auto.
+    eapply Forall_impl; [|exact IHb]. intros a Ha m0 tab0 top0 ins0 d0 vs0 H1 H2. eapply Ha; eauto.
 Qed.
 
 Lemma bg_list_nobreak' : forall main ld l m tab top ins d vs,
@@ -228,19 +284,25 @@ Qed.
 Lemma base_setup : base false 0. Proof. left; reflexivity. Qed.
 Lemma base_main : base true 1. Proof. right; split; reflexivity. Qed.
 
-(* a [break] that only [if]s separate from the main loop *)
+(* a [break] that only [if] / [else] / [try] / [except] lines separate from the main loop (or from the top level) *)
 Inductive brk_at (l : list stmt) : Prop :=
 | brk_here : In SBreak l -> brk_at l
-| brk_if : forall x b, In (SIf x b) l -> brk_at b -> brk_at l.
+| brk_if : forall x b e, In (SIf x b e) l -> brk_at b -> brk_at l
+| brk_else : forall x b e, In (SIf x b e) l -> brk_at e -> brk_at l
+| brk_try : forall b h, In (STry b h) l -> brk_at b -> brk_at l
+| brk_except : forall b h, In (STry b h) l -> brk_at h -> brk_at l.
 
 Lemma brk_at_rejected : forall main ld, base main ld -> forall l, brk_at l -> forallb (bg main ld) l = false.
 Proof.
-  intros main ld Hbase l H. induction H as [l Hin|l x b Hin _ IH].
-  - destruct (forallb (bg main ld) l) eqn:E; [|reflexivity].
-    rewrite forallb_forall in E. specialize (E _ Hin). cbn [bg] in E.
-    destruct Hbase as [H0|[Hm H1]]; subst; cbn in E; discriminate.
-  - destruct (forallb (bg main ld) l) eqn:E; [|reflexivity].
-    rewrite forallb_forall in E. specialize (E _ Hin). cbn [bg] in E. congruence.
+  intros main ld Hbase l H.
+  induction H as [l Hin|l x b e Hin _ IH|l x b e Hin _ IH|l b h Hin _ IH|l b h Hin _ IH];
+    (destruct (forallb (bg main ld) l) eqn:E; [|reflexivity]);
+    rewrite forallb_forall in E; specialize (E _ Hin); cbn [bg] in E.
+  - destruct Hbase as [H0|[Hm H1]]; subst; cbn in E; discriminate.
+  - apply andb_true_iff in E as [E1 E2]. congruence.
+  - apply andb_true_iff in E as [E1 E2]. congruence.
+  - apply andb_true_iff in E as [E1 E2]. congruence.
+  - apply andb_true_iff in E as [E1 E2]. congruence.
 Qed.
 
 Lemma break_guard_rejects_main : forall its body,
@@ -263,11 +325,11 @@ Qed.
 Lemma reset_nil : forall vs, reset [] vs = vs.
 Proof. reflexivity. Qed.
 
-Lemma pre_reset_guard : forall m top ins d body vs, no_fresh top ins d body = true -> pre_reset m top ins d body vs = vs.
+Lemma pre_reset_guard : forall m top ins d nn vs, no_fresh top ins d nn = true -> pre_reset m top ins d nn vs = vs.
 Proof.
-  intros m top ins d body vs H. unfold pre_reset, resets_here. destruct m; [reflexivity|].
+  intros m top ins d nn vs H. unfold pre_reset, resets_here. destruct m; [reflexivity|].
   unfold no_fresh in H. destruct (top && ins); [reflexivity|]. cbn [negb orb] in *.
-  destruct (fresh d (flat_map assigned_stmt body)); [reflexivity|discriminate].
+  destruct (fresh d nn); [reflexivity|discriminate].
 Qed.
 
 Lemma mode_indep_list : forall l,
@@ -286,18 +348,26 @@ Qed.
 Lemma mode_indep_stmt : forall s tab top ins d vs,
   no_intro top ins d s = true -> run_stmt MC tab top ins d s vs = run_stmt MPy tab top ins d s vs.
 Proof.
-  intro s. induction s as [id dev|dd|x e|dv x|l| |x b IHb|c b IHb] using stmt_ind';
+  intro s. induction s as [id dev|dd|x e|dv x|l| |x b el IHb IHe|c b IHb|x b IHb|b h IHb IHh] using stmt_ind';
     intros tab top ins d vs Hn; try reflexivity.
-  - rewrite no_intro_if in Hn. apply andb_true_iff in Hn as [H1 H2].
+  - rewrite no_intro_if in Hn. apply andb_true_iff in Hn as [Hn H3]. apply andb_true_iff in Hn as [H1 H2].
     rewrite !run_if, !pre_reset_guard by exact H1.
-    destruct (vread x vs) as [c vs1]. destruct (c =? 0); [reflexivity|].
-    apply mode_indep_list; assumption.
+    destruct (vread x vs) as [c vs1]. destruct (c =? 0); apply mode_indep_list; assumption.
   - rewrite no_intro_for in Hn. apply andb_true_iff in Hn as [H1 H2].
-    rewrite !run_for, !pre_reset_guard by exact H1.
+    rewrite !run_for, !pre_reset_guard by exact H1. clear H1.
     generalize vs. induction c as [|k IHk]; intro v; [reflexivity|].
     cbn [for_iter]. rewrite (mode_indep_list b IHb tab ins d v H2).
     destruct (run_list MPy tab false ins d b v) as [[v1 t1] [|]]; [reflexivity|].
     rewrite IHk. reflexivity.
+  - rewrite no_intro_while in Hn. apply andb_true_iff in Hn as [H1 H2].
+    rewrite !run_while, !pre_reset_guard by exact H1.
+    generalize vs. generalize while_fuel. induction n as [|k IHk]; intro v; [reflexivity|].
+    cbn [while_iter]. destruct (vread x v) as [c v0]. destruct (c =? 0); [reflexivity|].
+    rewrite (mode_indep_list b IHb tab ins d v0 H2).
+    destruct (run_list MPy tab false ins d b v0) as [[v1 t1] [|]]; [reflexivity|].
+    rewrite IHk. reflexivity.
+  - rewrite no_intro_try in Hn. apply andb_true_iff in Hn as [Hn H3]. apply andb_true_iff in Hn as [H1 H2].
+    rewrite !run_try, !pre_reset_guard by exact H1. apply mode_indep_list; assumption.
 Qed.
 
 Lemma mode_indep_ann : forall l tab ins v,
@@ -587,7 +657,7 @@ Qed.
 Lemma tab_indep_stmt : forall s m tab1 tab2 top ins d vs,
   eqv (run_stmt m tab1 top ins d s vs) (run_stmt m tab2 top ins d s vs).
 Proof.
-  intro s. induction s as [id dev|dd|x e|dv x|l| |x b IHb|c b IHb] using stmt_ind';
+  intro s. induction s as [id dev|dd|x e|dv x|l| |x b el IHb IHe|c b IHb|x b IHb|b h IHb IHh] using stmt_ind';
     intros m tab1 tab2 top ins d vs.
   - cbn [run_stmt]. unfold eqv, tr. cbn [fst snd]. repeat split. rewrite !strip_app, !strip_uses. reflexivity.
   - apply eqv_refl.
@@ -596,15 +666,27 @@ Proof.
     rewrite !strip_app, !strip_uses. reflexivity.
   - cbn [run_stmt]. unfold eqv, tr. cbn [fst snd]. repeat split. rewrite !strip_uses. reflexivity.
   - apply eqv_refl.
-  - rewrite !run_if. destruct (vread x _) as [c0 vs1]. destruct (c0 =? 0); [apply eqv_refl|].
-    apply (tab_indep_list b IHb).
-  - rewrite !run_for. generalize (pre_reset m top ins d b vs). induction c as [|k IHk]; intro v; [apply eqv_refl|].
+  - rewrite !run_if. destruct (vread x _) as [c0 vs1]. destruct (c0 =? 0).
+    + apply (tab_indep_list el IHe).
+    + apply (tab_indep_list b IHb).
+  - rewrite !run_for. generalize (pre_reset m top ins d (assigned_stmt (SFor c b)) vs).
+    induction c as [|k IHk]; intro v; [apply eqv_refl|].
     cbn [for_iter]. destruct (tab_indep_list b IHb m tab1 tab2 false ins d v) as (E1 & E2 & E3).
     destruct (run_list m tab1 false ins d b v) as [[v1 t1] b1]. destruct (run_list m tab2 false ins d b v) as [[v1' t1'] b1'].
     unfold tr in *. cbn [fst snd] in *. subst v1' b1'. destruct b1; [repeat split; assumption|].
     destruct (IHk v1) as (F1 & F2 & F3).
     destruct (for_iter m tab1 ins d b k v1) as [[v2 t2] b2]. destruct (for_iter m tab2 ins d b k v1) as [[v2' t2'] b2'].
     unfold eqv, tr in *. cbn [fst snd] in *. subst v2' b2'. repeat split. rewrite !strip_app, E3, F3. reflexivity.
+  - rewrite !run_while. generalize (pre_reset m top ins d (assigned_stmt (SWhile x b)) vs). generalize while_fuel.
+    induction n as [|k IHk]; intro v; [apply eqv_refl|].
+    cbn [while_iter]. destruct (vread x v) as [c0 v0]. destruct (c0 =? 0); [apply eqv_refl|].
+    destruct (tab_indep_list b IHb m tab1 tab2 false ins d v0) as (E1 & E2 & E3).
+    destruct (run_list m tab1 false ins d b v0) as [[v1 t1] b1]. destruct (run_list m tab2 false ins d b v0) as [[v1' t1'] b1'].
+    unfold tr in *. cbn [fst snd] in *. subst v1' b1'. destruct b1; [repeat split; assumption|].
+    destruct (IHk v1) as (F1 & F2 & F3).
+    destruct (while_iter m tab1 ins d x b k v1) as [[v2 t2] b2]. destruct (while_iter m tab2 ins d x b k v1) as [[v2' t2'] b2'].
+    unfold eqv, tr in *. cbn [fst snd] in *. subst v2' b2'. repeat split. rewrite !strip_app, E3, F3. reflexivity.
+  - rewrite !run_try. apply (tab_indep_list b IHb).
 Qed.
 
 (* the statements of setup() / loop() as emitted (re-bindings, dedup) and the same list run with one fixed table *)
@@ -891,7 +973,7 @@ Definition no_input : Z -> nat -> bool := fun _ _ => false.
        c0 = c0 + 1; mon.write(c0)            CPython 1 2 3, firmware 1 1 1 *)
 Definition w_looplocal : list item :=
   [IStmt (SDecl d_mon); IStmt (SSet n_flag (RConst 1));
-   IMainLoop [SIf n_flag [SSet n_c0 (RConst 0); SSet n_flag (RConst 0)];
+   IMainLoop [SIf n_flag [SSet n_c0 (RConst 0); SSet n_flag (RConst 0)] [];
               SSet n_c0 (RAdd n_c0 1); SShow n_mon n_c0]].
 
 (* mon.write("m1"); while True: mon.write("m2");  mon.write("m3") *)
@@ -912,7 +994,7 @@ Definition w_good : list item :=
    IStmt (SSet n_g (RConst 0)); IStmt (SMark 1 (Some n_mon));
    IMainLoop [SDecl (mkDecl KLed n_led [5] None); SMark 2 (Some n_led);
               SSet n_g (RAdd n_g 2); SShow n_mon n_g;
-              SFor 2 [SIf n_g [SBreak]; SMark 3 None]]].
+              SFor 2 [SIf n_g [SBreak] []; SMark 3 None]]].
 
 Lemma looplocal_refuted :
   transl_ok w_looplocal = true /\ one_main_last w_looplocal = true /\ vars_ok w_looplocal = false /\
@@ -970,8 +1052,8 @@ Proof.
 Qed.
 
 Lemma break_guard_examples :
-  transl_ok [IMainLoop [SIf n_flag [SBreak]]] = false /\
-  transl_ok [IMainLoop [SFor 2 [SIf n_flag [SBreak]]]] = true /\
+  transl_ok [IMainLoop [SIf n_flag [SBreak] []]] = false /\
+  transl_ok [IMainLoop [SFor 2 [SIf n_flag [SBreak] []]]] = true /\
   transl_ok [IStmt SBreak] = false.
 Proof. repeat split; reflexivity. Qed.
 
@@ -997,7 +1079,7 @@ Qed.
 
 Lemma user_stmt : forall s m tab top ins d vs, forallb is_user (tr (run_stmt m tab top ins d s vs)) = true.
 Proof.
-  intro s. induction s as [id dev|dd|x e|dv x|l| |x b IHb|c b IHb] using stmt_ind';
+  intro s. induction s as [id dev|dd|x e|dv x|l| |x b el IHb IHe|c b IHb|x b IHb|b h IHb IHh] using stmt_ind';
     intros m tab top ins d vs; unfold tr.
   - cbn [run_stmt fst snd]. rewrite forallb_app.
     rewrite (user_cu _ (use_cu _ (use_uses tab dev))). reflexivity.
@@ -1007,13 +1089,23 @@ Proof.
     rewrite (user_cu _ (use_cu _ (use_uses tab (Some dv)))). reflexivity.
   - cbn [run_stmt fst snd]. exact (user_cu _ (use_cu _ (use_uses tab (Some l)))).
   - reflexivity.
-  - rewrite run_if. destruct (vread x _) as [c0 vs1]. destruct (c0 =? 0); [reflexivity|].
-    apply (user_list b IHb).
-  - rewrite run_for. generalize (pre_reset m top ins d b vs). induction c as [|k IHk]; intro v; [reflexivity|].
+  - rewrite run_if. destruct (vread x _) as [c0 vs1]. destruct (c0 =? 0).
+    + apply (user_list el IHe).
+    + apply (user_list b IHb).
+  - rewrite run_for. generalize (pre_reset m top ins d (assigned_stmt (SFor c b)) vs).
+    induction c as [|k IHk]; intro v; [reflexivity|].
     cbn [for_iter]. pose proof (user_list b IHb m tab false ins d v) as H1.
     destruct (run_list m tab false ins d b v) as [[v1 t1] [|]]; [exact H1|].
     specialize (IHk v1). destruct (for_iter m tab ins d b k v1) as [[v2 t2] b2].
     unfold tr in *. cbn [fst snd] in *. rewrite forallb_app, H1, IHk. reflexivity.
+  - rewrite run_while. generalize (pre_reset m top ins d (assigned_stmt (SWhile x b)) vs). generalize while_fuel.
+    induction n as [|k IHk]; intro v; [reflexivity|].
+    cbn [while_iter]. destruct (vread x v) as [c0 v0]. destruct (c0 =? 0); [reflexivity|].
+    pose proof (user_list b IHb m tab false ins d v0) as H1.
+    destruct (run_list m tab false ins d b v0) as [[v1 t1] [|]]; [exact H1|].
+    specialize (IHk v1). destruct (while_iter m tab ins d x b k v1) as [[v2 t2] b2].
+    unfold tr in *. cbn [fst snd] in *. rewrite forallb_app, H1, IHk. reflexivity.
+  - rewrite run_try. apply (user_list b IHb).
 Qed.
 
 Lemma user_ann : forall l m tab ins v, forallb is_user (tr (run_ann m tab ins l v)) = true.
@@ -1387,7 +1479,7 @@ Section CBU.
 
   Lemma free_stmt_safe : forall c P, Inv c P -> forall s, free_ok c P s.
   Proof.
-    intros c P Hi s. induction s as [id dev|dd|x e|dv x|l| |x b IHb|cn b IHb] using stmt_ind';
+    intros c P Hi s. induction s as [id dev|dd|x e|dv x|l| |x b el IHb IHe|cn b IHb|x b IHb|b h IHb IHh] using stmt_ind';
       intros Hd Hn m top ins d vs; unfold tr.
     - cbn [run_stmt fst snd]. rewrite forallb_app. cbn [forallb safe]. rewrite andb_true_r.
       destruct dev as [nm|]; [|reflexivity]. apply (uses_safe c P nm Hi). apply Hn. left. reflexivity.
@@ -1397,11 +1489,15 @@ Section CBU.
       apply (uses_safe c P dv Hi). apply Hn. left. reflexivity.
     - cbn [run_stmt fst snd]. apply (uses_safe c P l Hi). apply Hn. left. reflexivity.
     - reflexivity.
-    - rewrite run_if. destruct (vread x _) as [c0 vs1]. destruct (c0 =? 0); [reflexivity|].
-      apply (free_list_safe c P b IHb).
-      + intros s Hs. exact (flat_map_nil_inv _ _ decls_stmt b Hd s Hs).
-      + intros s nm Hs Hin. apply Hn. cbn [devs_stmt]. apply in_flat_map. exists s. split; assumption.
-    - rewrite run_for. generalize (pre_reset m top ins d b vs).
+    - rewrite run_if. destruct (vread x _) as [c0 vs1]. cbn [decls_stmt] in Hd. apply app_eq_nil in Hd as [Hd1 Hd2].
+      destruct (c0 =? 0).
+      + apply (free_list_safe c P el IHe).
+        * intros s Hs. exact (flat_map_nil_inv _ _ decls_stmt el Hd2 s Hs).
+        * intros s nm Hs Hin. apply Hn. cbn [devs_stmt]. apply in_or_app. right. apply in_flat_map. exists s. split; assumption.
+      + apply (free_list_safe c P b IHb).
+        * intros s Hs. exact (flat_map_nil_inv _ _ decls_stmt b Hd1 s Hs).
+        * intros s nm Hs Hin. apply Hn. cbn [devs_stmt]. apply in_or_app. left. apply in_flat_map. exists s. split; assumption.
+    - rewrite run_for. generalize (pre_reset m top ins d (assigned_stmt (SFor cn b)) vs).
       assert (HL : forall v, forallb (safe c) (tr (run_list m tab false ins d b v)) = true).
       { intro v. apply (free_list_safe c P b IHb).
         - intros s Hs. exact (flat_map_nil_inv _ _ decls_stmt b Hd s Hs).
@@ -1411,6 +1507,20 @@ Section CBU.
       destruct (run_list m tab false ins d b v) as [[v1 t1] [|]]; [exact HLv|].
       specialize (IHk v1). destruct (for_iter m tab ins d b k v1) as [[v2 t2] b2].
       unfold tr in *. cbn [fst snd] in *. rewrite forallb_app, HLv, IHk. reflexivity.
+    - rewrite run_while. generalize (pre_reset m top ins d (assigned_stmt (SWhile x b)) vs).
+      assert (HL : forall v, forallb (safe c) (tr (run_list m tab false ins d b v)) = true).
+      { intro v. apply (free_list_safe c P b IHb).
+        - intros s Hs. exact (flat_map_nil_inv _ _ decls_stmt b Hd s Hs).
+        - intros s nm Hs Hin. apply Hn. cbn [devs_stmt]. apply in_flat_map. exists s. split; assumption. }
+      clear Hd Hn. generalize while_fuel. induction n as [|k IHk]; intro v; [reflexivity|].
+      cbn [while_iter]. destruct (vread x v) as [c0 v0]. destruct (c0 =? 0); [reflexivity|]. pose proof (HL v0) as HLv.
+      destruct (run_list m tab false ins d b v0) as [[v1 t1] [|]]; [exact HLv|].
+      specialize (IHk v1). destruct (while_iter m tab ins d x b k v1) as [[v2 t2] b2].
+      unfold tr in *. cbn [fst snd] in *. rewrite forallb_app, HLv, IHk. reflexivity.
+    - rewrite run_try. cbn [decls_stmt] in Hd. apply app_eq_nil in Hd as [Hd1 Hd2].
+      apply (free_list_safe c P b IHb).
+      + intros s Hs. exact (flat_map_nil_inv _ _ decls_stmt b Hd1 s Hs).
+      + intros s nm Hs Hin. apply Hn. cbn [devs_stmt]. apply in_or_app. left. apply in_flat_map. exists s. split; assumption.
   Qed.
 
   Lemma ndf_cases : forall s, nested_decl_free s = true ->
@@ -1418,8 +1528,10 @@ Section CBU.
   Proof.
     intros s H. destruct s; try (right; split; reflexivity).
     - left. eexists. reflexivity.
-    - right. unfold nested_decl_free in H. destruct (decls_stmt (SIf x body)); [split; reflexivity|discriminate].
+    - right. unfold nested_decl_free in H. destruct (decls_stmt (SIf x body els)); [split; reflexivity|discriminate].
     - right. unfold nested_decl_free in H. destruct (decls_stmt (SFor cnt body)); [split; reflexivity|discriminate].
+    - right. unfold nested_decl_free in H. destruct (decls_stmt (SWhile x body)); [split; reflexivity|discriminate].
+    - right. unfold nested_decl_free in H. destruct (decls_stmt (STry body handler)); [split; reflexivity|discriminate].
   Qed.
 
   Lemma Inv_uses_ok : forall c, Inv c (fun nm => forallb (safe c) (uses tab (Some nm)) = true).
@@ -1843,7 +1955,7 @@ Qed.
 Lemma cfg_origin_stmt : forall s m tab top ins d vs r mo,
   In (ECfg r mo) (tr (run_stmt m tab top ins d s vs)) -> origin s (ECfg r mo).
 Proof.
-  intro s. induction s as [id dev|dd|x e|dv x|l| |x b IHb|cn b IHb] using stmt_ind';
+  intro s. induction s as [id dev|dd|x e|dv x|l| |x b el IHb IHe|cn b IHb|x b IHb|b h IHb IHh] using stmt_ind';
     intros m tab top ins d vs r mo H; unfold tr in H.
   - cbn [run_stmt fst snd] in H. apply in_app_or in H as [H|[H|[]]]; [|discriminate].
     exfalso. exact (uses_not_cfg _ _ _ _ H).
@@ -1853,10 +1965,14 @@ Proof.
     exfalso. exact (uses_not_cfg _ _ _ _ H).
   - cbn [run_stmt fst snd] in H. exfalso. exact (uses_not_cfg _ _ _ _ H).
   - destruct H.
-  - rewrite run_if in H. destruct (vread x _) as [c0 vs1]. destruct (c0 =? 0); [destruct H|].
-    destruct (cfg_origin_list b IHb m tab false ins d vs1 r mo H) as (s' & Hs' & Ho).
-    exact (origin_block b s' _ Hs' Ho).
-  - rewrite run_for in H. revert H. generalize (pre_reset m top ins d b vs).
+  - rewrite run_if in H. destruct (vread x _) as [c0 vs1]. destruct (c0 =? 0).
+    + destruct (cfg_origin_list el IHe m tab false ins d vs1 r mo H) as (s' & Hs' & Ho).
+      destruct (origin_block el s' _ Hs' Ho) as (d0 & t0 & i0 & Hd & He).
+      exists d0, t0, i0. split; [cbn [decls_stmt]; apply in_or_app; right; exact Hd|exact He].
+    + destruct (cfg_origin_list b IHb m tab false ins d vs1 r mo H) as (s' & Hs' & Ho).
+      destruct (origin_block b s' _ Hs' Ho) as (d0 & t0 & i0 & Hd & He).
+      exists d0, t0, i0. split; [cbn [decls_stmt]; apply in_or_app; left; exact Hd|exact He].
+  - rewrite run_for in H. revert H. generalize (pre_reset m top ins d (assigned_stmt (SFor cn b)) vs).
     induction cn as [|k IHk]; intros v H; [destruct H|].
     cbn [for_iter] in H. pose proof (cfg_origin_list b IHb m tab false ins d v r mo) as HL.
     destruct (run_list m tab false ins d b v) as [[v1 t1] [|]].
@@ -1865,6 +1981,20 @@ Proof.
       unfold tr in *. cbn [fst snd] in *. apply in_app_or in H as [H|H].
       * destruct (HL H) as (s' & Hs' & Ho). exact (origin_block b s' _ Hs' Ho).
       * exact (IHk H).
+  - rewrite run_while in H. revert H. generalize (pre_reset m top ins d (assigned_stmt (SWhile x b)) vs).
+    generalize while_fuel. induction n as [|k IHk]; intros v H; [destruct H|].
+    cbn [while_iter] in H. destruct (vread x v) as [c0 v0]. destruct (c0 =? 0); [destruct H|].
+    pose proof (cfg_origin_list b IHb m tab false ins d v0 r mo) as HL.
+    destruct (run_list m tab false ins d b v0) as [[v1 t1] [|]].
+    + destruct (HL H) as (s' & Hs' & Ho). exact (origin_block b s' _ Hs' Ho).
+    + specialize (IHk v1). destruct (while_iter m tab ins d x b k v1) as [[v2 t2] b2].
+      unfold tr in *. cbn [fst snd] in *. apply in_app_or in H as [H|H].
+      * destruct (HL H) as (s' & Hs' & Ho). exact (origin_block b s' _ Hs' Ho).
+      * exact (IHk H).
+  - rewrite run_try in H.
+    destruct (cfg_origin_list b IHb m tab false ins d _ r mo H) as (s' & Hs' & Ho).
+    destruct (origin_block b s' _ Hs' Ho) as (d0 & t0 & i0 & Hd & He).
+    exists d0, t0, i0. split; [cbn [decls_stmt]; apply in_or_app; left; exact Hd|exact He].
 Qed.
 
 Lemma cfg_origin_ann : forall l m tab ins v r mo, In (ECfg r mo) (tr (run_ann m tab ins l v)) ->
@@ -2155,7 +2285,7 @@ Proof. reflexivity. Qed.
 
 Lemma sim_stmt : forall K s, sim_ok K s.
 Proof.
-  intros K s. induction s as [id dev|dd|x e|dv x|l| |x bd IHb|cn bd IHb] using stmt_ind';
+  intros K s. induction s as [id dev|dd|x e|dv x|l| |x bd el IHb IHe|cn bd IHb|x bd IHb|bd h IHb IHh] using stmt_ind';
     intros tab top ins d a b Hr Ha.
   - repeat split; try reflexivity; apply Ha.
   - repeat split; try reflexivity; apply Ha.
@@ -2169,10 +2299,12 @@ Proof.
   - repeat split; try reflexivity; apply Ha.
   - repeat split; try reflexivity; apply Ha.
   - rewrite !run_if, !pre_reset_py. cbn [reads_stmt forallb] in Hr. apply andb_true_iff in Hr as [Hx Hb].
+    rewrite forallb_app in Hb. apply andb_true_iff in Hb as [Hb He].
     destruct (agree_read K a b x Hx Ha) as [E1 E2].
     destruct (vread x a) as [va a']. destruct (vread x b) as [vb b']. cbn [fst snd] in *. subst vb.
-    destruct (va =? 0); [repeat split; try reflexivity; apply E2|].
-    apply (sim_list K bd IHb); assumption.
+    destruct (va =? 0).
+    + apply (sim_list K el IHe); assumption.
+    + apply (sim_list K bd IHb); assumption.
   - rewrite !run_for, !pre_reset_py. cbn [reads_stmt] in Hr.
     revert a b Ha. induction cn as [|k IHk]; intros a b Ha.
     + repeat split; try reflexivity; apply Ha.
@@ -2183,6 +2315,21 @@ Proof.
       * destruct (IHk a1 b1 E3) as (F1 & F2 & F3).
         destruct (for_iter MPy tab ins d bd k a1) as [[a2 t2] ba2]. destruct (for_iter MPy tab ins d bd k b1) as [[b2 t2'] bb2].
         unfold tr in *. cbn [fst snd] in *. subst t2' bb2. repeat split; try reflexivity; apply F3.
+  - rewrite !run_while, !pre_reset_py. cbn [reads_stmt forallb] in Hr. apply andb_true_iff in Hr as [Hx Hr].
+    revert a b Ha. generalize while_fuel. induction n as [|k IHk]; intros a b Ha.
+    + cbn [while_iter]. repeat split; try reflexivity; unfold out_of_fuel; cbn [fst snd v_vars v_undef]; apply Ha.
+    + cbn [while_iter]. destruct (agree_read K a b x Hx Ha) as [E1 E2].
+      destruct (vread x a) as [va a']. destruct (vread x b) as [vb b']. cbn [fst snd] in *. subst vb.
+      destruct (va =? 0); [repeat split; try reflexivity; apply E2|].
+      destruct (sim_list K bd IHb tab false ins d a' b' Hr E2) as (G1 & G2 & G3).
+      destruct (run_list MPy tab false ins d bd a') as [[a1 t1] ba]. destruct (run_list MPy tab false ins d bd b') as [[b1 t1'] bb].
+      unfold tr in G1. cbn [fst snd] in *. subst t1' bb. destruct ba.
+      * repeat split; try reflexivity; apply G3.
+      * destruct (IHk a1 b1 G3) as (F1 & F2 & F3).
+        destruct (while_iter MPy tab ins d x bd k a1) as [[a2 t2] ba2]. destruct (while_iter MPy tab ins d x bd k b1) as [[b2 t2'] bb2].
+        unfold tr in *. cbn [fst snd] in *. subst t2' bb2. repeat split; try reflexivity; apply F3.
+  - rewrite !run_try, !pre_reset_py. cbn [reads_stmt] in Hr. rewrite forallb_app in Hr. apply andb_true_iff in Hr as [Hb Hh].
+    apply (sim_list K bd IHb); assumption.
 Qed.
 
 Lemma known_var_cons : forall locals A x y, known_var locals (x :: A) y = true ->
@@ -2374,14 +2521,19 @@ Proof. intros ins l. induction l as [|s r IH]; intro d; [reflexivity|]. cbn [ir_
 
 Lemma marks_ir_stmt : forall s top ins d, flat_map marks_irn (ir_stmt top ins d s) = marks_stmt s.
 Proof.
-  intro s. induction s as [id dev|dd|x e|dv x|l| |x b IHb|c b IHb] using stmt_ind'; intros top ins d; try reflexivity.
+  intro s. induction s as [id dev|dd|x e|dv x|l| |x b el IHb IHe|c b IHb|x b IHb|b h IHb IHh] using stmt_ind';
+    intros top ins d; try reflexivity.
   - cbn [ir_stmt marks_stmt]. destruct (mem_name x d); [reflexivity|]. destruct (top && ins).
     + destruct e; reflexivity.
     + destruct top; reflexivity.
+  - cbn [ir_stmt marks_stmt]. rewrite flat_map_app, marks_prom, !ir_block_eq. cbn [app flat_map marks_irn].
+    rewrite app_nil_r. f_equal; apply marks_ir_list; assumption.
   - cbn [ir_stmt marks_stmt]. rewrite flat_map_app, marks_prom, ir_block_eq. cbn [app flat_map marks_irn].
     rewrite app_nil_r. apply marks_ir_list. exact IHb.
   - cbn [ir_stmt marks_stmt]. rewrite flat_map_app, marks_prom, ir_block_eq. cbn [app flat_map marks_irn].
     rewrite app_nil_r. apply marks_ir_list. exact IHb.
+  - cbn [ir_stmt marks_stmt]. rewrite flat_map_app, marks_prom, !ir_block_eq. cbn [app flat_map marks_irn].
+    rewrite app_nil_r. f_equal; apply marks_ir_list; assumption.
 Qed.
 
 Lemma marks_ir_items : forall its d,
@@ -2414,11 +2566,9 @@ Proof.
   - exists (snd (ir_items [] its)). split; [reflexivity|].
     assert (HS : forall s top ins d, Forall (fun n => match n with NPoll _ | NTick _ => False | _ => True end) (ir_stmt top ins d s)).
     { intros s top ins d. destruct s; cbn [ir_stmt]; repeat constructor.
-      - destruct (mem_name x d); [repeat constructor|]. destruct (top && ins); [destruct e; repeat constructor|].
-        destruct top; repeat constructor.
-      - apply Forall_app. split; [|repeat constructor]. unfold prom. destruct (top && ins); [constructor|].
-        destruct top; apply Forall_forall; intros n Hn; apply in_map_iff in Hn as (y & <- & _); exact I.
-      - apply Forall_app. split; [|repeat constructor]. unfold prom. destruct (top && ins); [constructor|].
+      1: { destruct (mem_name x d); [repeat constructor|]. destruct (top && ins); [destruct e; repeat constructor|].
+           destruct top; repeat constructor. }
+      all: apply Forall_app; (split; [|repeat constructor]); unfold prom; (destruct (top && ins); [constructor|]);
         destruct top; apply Forall_forall; intros n Hn; apply in_map_iff in Hn as (y & <- & _); exact I. }
     assert (HL : forall l top ins d, Forall (fun n => match n with NPoll _ | NTick _ => False | _ => True end) (ir_list top ins d l)).
     { induction l as [|s r IH]; intros top ins d; [constructor|]. cbn [ir_list]. apply Forall_app. split; [apply HS|apply IH]. }
@@ -2621,3 +2771,151 @@ Lemma looptop_button_example :
   snd (fst (exec_phases rising_input 2 w_looptop_button)) =
      [[EPoll 4; EHUse RSer true; EHand 9; EUse RSer true; EMark 2]; [EPoll 4; EUse RSer true; EMark 2]].
 Proof. vm_compute. repeat split; reflexivity. Qed.
+
+(* ------------------------------------------------------------------ names bound inside a prologue block; breaks in handlers *)
+Definition n_step : name := [115; 116; 101; 112].
+Definition n_total : name := [116; 111; 116; 97; 108].
+Definition n_q : name := [113].
+Definition n_w : name := [119].
+Definition n_n : name := [110].
+
+(* mon = SerialMonitor(9600); flag = 0; n = 2
+   if flag: step = 10 / else: step = 20
+   for _ in range(4): total = 2
+   while n: n = n - 1; w = 7
+   try: q = 5 / except: q = 6
+   while True: total = total + 1; step = step + 1; w = w + 1; q = q + 1; mon.write(total/step/w/q) *)
+Definition w_promoted : list item :=
+  [IStmt (SDecl d_mon); IStmt (SSet n_flag (RConst 0)); IStmt (SSet n_n (RConst 2));
+   IStmt (SIf n_flag [SSet n_step (RConst 10)] [SSet n_step (RConst 20)]);
+   IStmt (SFor 4 [SSet n_total (RConst 2)]);
+   IStmt (SWhile n_n [SSet n_n (RAdd n_n (-1)); SSet n_w (RConst 7)]);
+   IStmt (STry [SSet n_q (RConst 5)] [SSet n_q (RConst 6)]);
+   IMainLoop [SSet n_total (RAdd n_total 1); SSet n_step (RAdd n_step 1); SSet n_w (RAdd n_w 1); SSet n_q (RAdd n_q 1);
+              SShow n_mon n_total; SShow n_mon n_step; SShow n_mon n_w; SShow n_mon n_q]].
+
+Lemma promoted_example :
+  transl_ok w_promoted = true /\ vars_ok w_promoted = true /\ vars_persist w_promoted = true /\
+  one_main_last w_promoted = true /\
+  globals_of w_promoted = [n_flag; n_n; n_step; n_total; n_w; n_q] /\ locals_of w_promoted = [] /\
+  ir_loop w_promoted = [NVarAssign n_total; NVarAssign n_step; NVarAssign n_w; NVarAssign n_q;
+                        NShow n_total; NShow n_step; NShow n_w; NShow n_q] /\
+  py_exec 2 w_promoted = [EVal n_total 3; EVal n_step 21; EVal n_w 8; EVal n_q 6;
+                          EVal n_total 4; EVal n_step 22; EVal n_w 9; EVal n_q 7] /\
+  obs (exec no_input 2 w_promoted) = py_exec 2 w_promoted.
+Proof. vm_compute. repeat split; reflexivity. Qed.
+
+Lemma break_handler_examples :
+  transl_ok [IMainLoop [STry [SMark 1 None] [SBreak]]] = false /\
+  transl_ok [IMainLoop [STry [SMark 1 None] [SIf n_flag [SMark 2 None] [SBreak]]]] = false /\
+  transl_ok [IMainLoop [STry [SBreak] [SMark 1 None]]] = false /\
+  transl_ok [IMainLoop [SIf n_flag [SMark 1 None] [SBreak]]] = false /\
+  transl_ok [IMainLoop [SFor 2 [STry [SMark 1 None] [SBreak]]]] = true /\
+  transl_ok [IMainLoop [SWhile n_flag [STry [SMark 1 None] [SIf n_flag [] [SBreak]]]]] = true /\
+  transl_ok [IStmt (STry [SMark 1 None] [SBreak])] = false /\
+  transl_ok [IStmt (SWhile n_flag [STry [SMark 1 None] [SBreak]])] = true.
+Proof. repeat split; reflexivity. Qed.
+
+(* ------------------------------------------------------------------ a name bound anywhere in the prologue is never
+   re-declared in loop() *)
+Lemma fresh_not_mem : forall l d x, mem_name x d = true -> mem_name x (fresh d l) = false.
+Proof.
+  induction l as [|a r IH]; intros d x H; cbn [fresh]; [reflexivity|].
+  destruct (mem_name a d) eqn:E; [apply IH; exact H|].
+  rewrite mem_cons. destruct (name_eqb x a) eqn:F.
+  - apply name_eqb_eq in F. subst a. congruence.
+  - cbn [orb]. apply IH. rewrite mem_cons, H. apply orb_true_r.
+Qed.
+
+Lemma mem_fresh : forall l d x, mem_name x (d ++ fresh d l) = mem_name x (d ++ l).
+Proof.
+  induction l as [|a r IH]; intros d x; cbn [fresh]; [reflexivity|].
+  destruct (mem_name a d) eqn:E.
+  - rewrite IH, !mem_name_app, mem_cons. destruct (name_eqb x a) eqn:F; [|reflexivity].
+    apply name_eqb_eq in F. subst a. rewrite E. reflexivity.
+  - pose proof (IH (a :: d) x) as H. cbn [app] in H. rewrite !mem_cons, !mem_name_app in H.
+    rewrite !mem_name_app, !mem_cons.
+    destruct (mem_name x d), (name_eqb x a), (mem_name x (fresh (a :: d) r)), (mem_name x r); cbn in *; congruence.
+Qed.
+
+Lemma vardecls_prom : forall top ins nn x, mem_name x nn = false ->
+  mem_name x (flat_map vardecls_irn (prom top ins nn)) = false.
+Proof.
+  intros top ins nn x H. unfold prom. destruct (top && ins); [reflexivity|]. destruct top.
+  - induction nn as [|y r IH]; [reflexivity|]. cbn [map flat_map vardecls_irn app]. rewrite mem_cons in *.
+    apply orb_false_iff in H as [H1 H2]. rewrite H1. exact (IH H2).
+  - induction nn as [|y r IH]; [reflexivity|]. cbn [map flat_map vardecls_irn app]. apply IH.
+    rewrite mem_cons in H. apply orb_false_iff in H as [_ H2]. exact H2.
+Qed.
+
+Lemma nodecl_list : forall x l,
+  Forall (fun s => forall top ins d, mem_name x d = true ->
+                   mem_name x (flat_map vardecls_irn (ir_stmt top ins d s)) = false) l ->
+  forall top ins d, mem_name x d = true -> mem_name x (flat_map vardecls_irn (ir_list top ins d l)) = false.
+Proof.
+  intros x l HF. induction HF as [|s r Hs _ IH]; intros top ins d H; [reflexivity|].
+  cbn [ir_list]. rewrite flat_map_app, mem_name_app, (Hs top ins d H). cbn [orb].
+  apply IH. rewrite mem_name_app, H. reflexivity.
+Qed.
+
+Lemma nodecl_stmt : forall x s top ins d, mem_name x d = true ->
+  mem_name x (flat_map vardecls_irn (ir_stmt top ins d s)) = false.
+Proof.
+  intros x s. induction s as [id dev|dd|y e|dv y|l| |y b el IHb IHe|c b IHb|y b IHb|b h IHb IHh] using stmt_ind';
+    intros top ins d H; try reflexivity.
+  - cbn [ir_stmt]. destruct (mem_name y d) eqn:E; [reflexivity|]. destruct (top && ins); [destruct e; reflexivity|].
+    destruct top; [|reflexivity]. cbn [flat_map vardecls_irn app]. rewrite mem_cons. cbn [mem_name existsb]. rewrite orb_false_r.
+    destruct (name_eqb x y) eqn:F; [|reflexivity]. apply name_eqb_eq in F. subst y. congruence.
+  - cbn [ir_stmt]. rewrite flat_map_app, mem_name_app, vardecls_prom by (apply fresh_not_mem; exact H).
+    cbn [flat_map vardecls_irn app orb]. rewrite app_nil_r, !ir_block_eq, mem_name_app.
+    rewrite (nodecl_list x b IHb false ins d H), (nodecl_list x el IHe false ins d H). reflexivity.
+  - cbn [ir_stmt]. rewrite flat_map_app, mem_name_app, vardecls_prom by (apply fresh_not_mem; exact H).
+    cbn [flat_map vardecls_irn app orb]. rewrite app_nil_r, !ir_block_eq.
+    exact (nodecl_list x b IHb false ins d H).
+  - cbn [ir_stmt]. rewrite flat_map_app, mem_name_app, vardecls_prom by (apply fresh_not_mem; exact H).
+    cbn [flat_map vardecls_irn app orb]. rewrite app_nil_r, !ir_block_eq.
+    exact (nodecl_list x b IHb false ins d H).
+  - cbn [ir_stmt]. rewrite flat_map_app, mem_name_app, vardecls_prom by (apply fresh_not_mem; exact H).
+    cbn [flat_map vardecls_irn app orb]. rewrite app_nil_r, !ir_block_eq, mem_name_app.
+    rewrite (nodecl_list x b IHb false ins d H), (nodecl_list x h IHh false ins d H). reflexivity.
+Qed.
+
+Lemma nodecl_items : forall x its d, main_last its = true ->
+  mem_name x (d ++ flat_map assigned_stmt (fst (split its))) = true ->
+  mem_name x (flat_map vardecls_irn (snd (ir_items d its))) = false.
+Proof.
+  intros x. induction its as [|it r IH]; intros d Hm H; [reflexivity|]. destruct it as [s|b|f b].
+  - rewrite main_last_cons_stmt in Hm. cbn [ir_items split] in *.
+    specialize (IH (d ++ assigned_stmt s) Hm).
+    destruct (split r) as [a c]. destruct (ir_items (d ++ assigned_stmt s) r) as [a' c']. cbn [fst snd flat_map] in *.
+    apply IH. rewrite <- app_assoc. exact H.
+  - apply main_last_cons_main in Hm. subst r. cbn [ir_items split fst snd flat_map] in *. rewrite app_nil_r in *.
+    apply (nodecl_list x b); [|exact H]. apply Forall_forall. intros s _ top ins d0. apply nodecl_stmt.
+  - rewrite main_last_cons_func in Hm. cbn [ir_items split] in *. apply IH; assumption.
+Qed.
+
+Lemma nolocal_items : forall x its d, main_last its = true ->
+  mem_name x (d ++ flat_map assigned_stmt (fst (split its))) = true ->
+  mem_name x (snd (classify d its)) = false.
+Proof.
+  intros x. induction its as [|it r IH]; intros d Hm H; [reflexivity|]. destruct it as [s|b|f b].
+  - rewrite main_last_cons_stmt in Hm. cbn [classify split] in *.
+    specialize (IH (d ++ fresh d (assigned_stmt s)) Hm).
+    destruct (split r) as [a c]. destruct (classify (d ++ fresh d (assigned_stmt s)) r) as [g l]. cbn [fst snd flat_map] in *.
+    apply IH. rewrite mem_name_app, mem_fresh, <- mem_name_app, <- app_assoc. exact H.
+  - apply main_last_cons_main in Hm. subst r. cbn [classify split fst snd flat_map] in *. rewrite app_nil_r in *.
+    apply fresh_not_mem. exact H.
+  - rewrite main_last_cons_func in Hm. cbn [classify split] in *. apply IH; assumption.
+Qed.
+
+Lemma prologue_names_global : forall its x, one_main_last its = true ->
+  mem_name x (flat_map assigned_stmt (fst (split its))) = true ->
+  mem_name x (flat_map vardecls_irn (ir_loop its)) = false /\ mem_name x (locals_of its) = false.
+Proof.
+  intros its x Hm H. split.
+  - unfold ir_loop. rewrite !flat_map_app, !mem_name_app.
+    assert (Hp : forall l, flat_map vardecls_irn (map NPoll l) = []) by (induction l as [|y r IH]; [reflexivity|exact IH]).
+    assert (Ht : forall l, flat_map vardecls_irn (map NTick l) = []) by (induction l as [|y r IH]; [reflexivity|exact IH]).
+    rewrite Hp, Ht. cbn [mem_name existsb orb]. apply nodecl_items; [exact Hm|exact H].
+  - unfold locals_of. apply nolocal_items; [exact Hm|exact H].
+Qed.
